@@ -9,6 +9,7 @@ package proxy
 import (
 	"context"
 	"fmt"
+	"io"
 	"net"
 	"sync"
 	"time"
@@ -24,7 +25,10 @@ import (
 	"google.golang.org/protobuf/reflect/protoreflect"
 	"google.golang.org/protobuf/reflect/protoregistry"
 
+	"github.com/hashicorp/yamux"
+
 	"github.com/temporalio/s2s-proxy/config"
+	"github.com/temporalio/s2s-proxy/transport/mux"
 )
 
 type vfCall struct {
@@ -147,6 +151,7 @@ type vfCluster struct {
 	stop          context.CancelFunc
 	// FromRemote dials the proxy's inbound (remote-facing) server; FromLocal the outbound (local-facing) one.
 	FromRemote, FromLocal *grpc.ClientConn
+	closers               []func()
 }
 
 func (c *vfCluster) Close() {
@@ -155,6 +160,9 @@ func (c *vfCluster) Close() {
 	}
 	if c.FromLocal != nil {
 		_ = c.FromLocal.Close()
+	}
+	for _, f := range c.closers {
+		f()
 	}
 	if c.stop != nil {
 		c.stop()
@@ -170,6 +178,14 @@ func (c *vfCluster) Close() {
 
 // vfStartCluster builds the connection from cfg after filling in the transport (TCP on loopback).
 func vfStartCluster(cfg config.ClusterConnConfig) (*vfCluster, error) {
+	return vfStartClusterOn(cfg, "tcp")
+}
+
+// vfStartClusterOn: transport of the remote-facing side is "tcp", "mux-server" (the proxy listens for the
+// remote's mux connections) or "mux-client" (the proxy dials the remote). For the mux transports the harness
+// is the remote peer: it owns the other end of one yamux session, calls the proxy's inbound server through
+// streams it opens on that session and serves the remote fake cluster on streams the proxy opens.
+func vfStartClusterOn(cfg config.ClusterConnConfig, transport string) (*vfCluster, error) {
 	c := &vfCluster{}
 	var err error
 	if c.Local, err = vfStartBackend("local"); err != nil {
@@ -185,9 +201,29 @@ func vfStartCluster(cfg config.ClusterConnConfig) (*vfCluster, error) {
 	cfg.Local.ConnectionType = config.ConnTypeTCP
 	cfg.Local.TcpClient.ConnectionString = c.Local.Addr()
 	cfg.Local.TcpServer.ConnectionString = "127.0.0.1:0"
-	cfg.Remote.ConnectionType = config.ConnTypeTCP
-	cfg.Remote.TcpClient.ConnectionString = c.Remote.Addr()
-	cfg.Remote.TcpServer.ConnectionString = "127.0.0.1:0"
+	var peerListener net.Listener
+	switch transport {
+	case "tcp":
+		cfg.Remote.ConnectionType = config.ConnTypeTCP
+		cfg.Remote.TcpClient.ConnectionString = c.Remote.Addr()
+		cfg.Remote.TcpServer.ConnectionString = "127.0.0.1:0"
+	case "mux-server":
+		cfg.Remote.ConnectionType = config.ConnTypeMuxServer
+		cfg.Remote.MuxCount = 1
+		cfg.Remote.MuxAddressInfo.ConnectionString = "127.0.0.1:0"
+	case "mux-client":
+		if peerListener, err = net.Listen("tcp", "127.0.0.1:0"); err != nil {
+			c.Close()
+			return nil, err
+		}
+		c.closers = append(c.closers, func() { _ = peerListener.Close() })
+		cfg.Remote.ConnectionType = config.ConnTypeMuxClient
+		cfg.Remote.MuxCount = 1
+		cfg.Remote.MuxAddressInfo.ConnectionString = peerListener.Addr().String()
+	default:
+		c.Close()
+		return nil, fmt.Errorf("unknown transport %q", transport)
+	}
 	lifetime, stop := context.WithCancel(context.Background())
 	c.stop = stop
 	cc, err := NewClusterConnection(lifetime, cfg, vfNoopLoggers())
@@ -196,14 +232,47 @@ func vfStartCluster(cfg config.ClusterConnConfig) (*vfCluster, error) {
 		return nil, err
 	}
 	c.CC = cc
+	mux.MuxManagerStartDelay = 0
 	cc.Start()
-	inAddr := cc.inboundServer.(*simpleGRPCServer).listener.Addr().String()
 	outAddr := cc.outboundServer.(*simpleGRPCServer).listener.Addr().String()
-	if c.FromRemote, err = grpc.NewClient(inAddr, grpc.WithTransportCredentials(insecure.NewCredentials())); err != nil {
+	if c.FromLocal, err = grpc.NewClient(outAddr, grpc.WithTransportCredentials(insecure.NewCredentials())); err != nil {
 		c.Close()
 		return nil, err
 	}
-	if c.FromLocal, err = grpc.NewClient(outAddr, grpc.WithTransportCredentials(insecure.NewCredentials())); err != nil {
+	if transport == "tcp" {
+		inAddr := cc.inboundServer.(*simpleGRPCServer).listener.Addr().String()
+		if c.FromRemote, err = grpc.NewClient(inAddr, grpc.WithTransportCredentials(insecure.NewCredentials())); err != nil {
+			c.Close()
+			return nil, err
+		}
+		return c, nil
+	}
+	// the harness end of the mux connection
+	var conn net.Conn
+	var sess *yamux.Session
+	ycfg := yamux.DefaultConfig()
+	ycfg.LogOutput = io.Discard
+	if transport == "mux-server" {
+		addr := cc.inboundServer.(mux.MultiMuxManager).Address()
+		if conn, err = net.DialTimeout("tcp", addr, 20*time.Second); err == nil {
+			sess, err = yamux.Client(conn, ycfg)
+		}
+	} else {
+		_ = peerListener.(*net.TCPListener).SetDeadline(time.Now().Add(60 * time.Second))
+		if conn, err = peerListener.Accept(); err == nil {
+			sess, err = yamux.Server(conn, ycfg)
+		}
+	}
+	if err != nil {
+		c.Close()
+		return nil, fmt.Errorf("%s: harness end of the mux connection: %w", transport, err)
+	}
+	c.closers = append(c.closers, func() { _ = sess.Close(); _ = conn.Close() })
+	go func() { _ = c.Remote.srv.Serve(sess) }()
+	c.FromRemote, err = grpc.NewClient("passthrough:///verif-mux",
+		grpc.WithTransportCredentials(insecure.NewCredentials()),
+		grpc.WithContextDialer(func(context.Context, string) (net.Conn, error) { return sess.Open() }))
+	if err != nil {
 		c.Close()
 		return nil, err
 	}
